@@ -236,3 +236,36 @@ Proof.
   intros m l body F. split; [apply layer_start; auto |].
   intros x Hx U. rewrite untouched_cb by auto. reflexivity.
 Qed.
+
+(* ---------------------------------------------------------------- siblings of the same kind *)
+
+Lemma board_start_km k name km m n' :
+  k <> Steps -> n' <> name ->
+  find_f n' (m_fs (fst (snd (board_start k name km m)))) = find_f n' (m_fs km).
+Proof.
+  intros Hk Hn. unfold board_start.
+  destruct (match find_f name (m_fs km) with Some cf => f_comp cf | None => None end); cbn [fst snd]; auto.
+  destruct k; try congruence; cbn [fst snd m_fs]; apply find_upd_other; auto with np.
+Qed.
+
+Lemma child_kind_map k n m :
+  child k n m = match find_f n (m_fs (kind_map (kind_name k) m)) with Some cf => f_comp cf | None => None end.
+Proof.
+  unfold child, kind_map. destruct (find_f (kind_name k) (m_fs m)) as [kf|]; auto.
+  unfold map_of. destruct (f_comp kf); reflexivity.
+Qed.
+
+(* Declaring (or re-opening) a layer or a scenario leaves every other board of the same kind untouched. *)
+Theorem sibling_untouched :
+  forall m k name body n',
+    k <> Steps -> n' <> name ->
+    child k n' (stepm [] m (DBoards k [(name, body)])) = child k n' m.
+Proof.
+  intros m k name body n' Hk Hn. rewrite step_boards. cbn [boards_go].
+  rewrite kind_map_ensure.
+  rewrite (child_kind_map k n' m).
+  unfold child, put_child. cbn [m_fs].
+  rewrite find_upd_same by (intro f; reflexivity). cbn [f_comp set_comp m_fs].
+  rewrite find_upd_other by (auto; intro f; reflexivity).
+  rewrite board_start_km by auto. reflexivity.
+Qed.
